@@ -8,6 +8,20 @@ for d in sorted(glob.glob(os.path.join(H,'seeded','*'))):
     m=json.load(open(os.path.join(d,'meta.json')))
     rows.append('| %s | %s | %s | %s: %s |' % (os.path.basename(d), m['breaks_property'], m['needs_to_manifest'].replace('|','/'), m['detected_by_check'], m['what_was_run'].replace('|','/')))
 tail=tail.replace('SEEDED_TABLE','\n'.join(rows))
+kf=json.load(open(os.path.join(H,'known_findings.json')))['findings']
+fx=[f for f in kf if f['status']=='fixed']
+ft=['| property | commit | what failed |','|---|---|---|']
+for f in fx:
+    what=f['what']
+    pre='fixed: property=%s ' % f['property']
+    if what.startswith(pre): what=what[len(pre):]
+    ft.append('| %s | %s | %s |' % (f['property'], f['commit'].replace('fix: ','',1).replace('|','/'), what.replace('|','/')))
+tail=tail.replace('FIXED_TABLE','\n'.join(ft)).replace('FIXED_COUNT',str(len(set(f['commit'] for f in fx))))
+ol=[]
+for f in kf:
+    if f['status']!='fixed':
+        ol.append('* **%s** `%s` / `%s` - %s' % (f['property'], f['oracle'], f['sig'], f['what']))
+tail=tail.replace('OPEN_LIST','\n\n'.join(ol))
 sr=os.path.join(H,'tools','soak_result.txt')
 tail=tail.replace('SOAK_RESULT', open(sr).read().strip() if os.path.exists(sr) else 'Results are appended here when a soak finishes.')
 p=os.path.join(H,'DESIGN.md')
